@@ -150,7 +150,7 @@ def main(argv=None):
         if v.key in reported:
             continue
         reported.add(v.key)
-        path = core.REPLAY / f"{pid}-{core.case_hash(v.case)}.json"
+        path = core.REPLAY / f"{pid}-{core.case_hash([v.key, v.case])}.json"
         path.write_text(json.dumps({"property": pid, "key": v.key, "what": v.what, "kind": v.kind, "case": v.case,
                                     "replay": f"./check {pid} --replay {path}"}, indent=1, default=str))
         print(f"VIOLATION property={pid} replay={path}")
